@@ -443,6 +443,10 @@ func (mpt *MerklePatriciaTrie) delete(key Key, prefix, path Path) (Node, Key, er
 		return nil, nil, err
 	}
 	if len(path) == 0 {
+		// the path ends here; a leaf that still has path elements of its own is another entry
+		if ln, ok := node.(*LeafNode); ok && len(ln.Path) != 0 {
+			return nil, nil, ErrValueNotPresent
+		}
 		return mpt.deleteAfterPathTraversal(node)
 	}
 	return mpt.deleteAtNode(key, node, prefix, path)
